@@ -303,10 +303,62 @@ pub fn run(cfg: &RunCfg) -> CheckReport {
         });
     });
     rep.part("ids", json!({"scopes": space.describe(), "int_types": ["u8", "u16", "u32", "u64", "usize", "i32"], "offsets": format!("{:?}", OFFSETS)}), ex);
+    if !rep.has_violation() {
+        super::large::run_part(cfg, &mut rep, &ALGS, &|a| if a == Algorithm::Lcs { 300 } else { usize::MAX }, check_large);
+    }
     rep
 }
 
+/// text diff of string tokens vs direct diff of the token slices vs direct diff of the raw items
+pub fn check_large(alg: Algorithm, inp: &super::large::LargeInput) -> Result<(bool, u64, u64), String> {
+    let so: Vec<String> = inp.old.iter().map(|x| format!("{}\n", x)).collect();
+    let sn: Vec<String> = inp.new.iter().map(|x| format!("{}\n", x)).collect();
+    let ro: Vec<&str> = so.iter().map(|s| s.as_str()).collect();
+    let rn: Vec<&str> = sn.iter().map(|s| s.as_str()).collect();
+    let text_old: String = so.concat();
+    let text_new: String = sn.concat();
+    let r = subject(|| {
+        let d = TextDiff::configure().algorithm(alg).diff_slices(&ro, &rn);
+        let dl = TextDiff::configure().algorithm(alg).diff_lines(&text_old, &text_new);
+        (
+            d.ops().to_vec(),
+            dl.ops().to_vec(),
+            dl.newline_terminated(),
+            dl.algorithm(),
+            similar::capture_diff_slices(alg, &ro, &rn),
+            similar::capture_diff_slices(alg, &inp.old, &inp.new),
+        )
+    })
+    .map_err(|p| format!("panic: {}", p))?;
+    let (text_ops, line_ops, nlt, got_alg, direct, raw) = r;
+    if text_ops != direct {
+        return Err(format!(
+            "TextDiff::diff_slices ops ({} vs {} tokens) differ from capture_diff_slices on the same token slices",
+            ro.len(),
+            rn.len()
+        ));
+    }
+    if line_ops != direct {
+        return Err(format!(
+            "TextDiff::diff_lines ops ({} vs {} lines) differ from capture_diff_slices on the line tokens",
+            ro.len(),
+            rn.len()
+        ));
+    }
+    if !nlt || got_alg != alg {
+        return Err("line diff lost its newline_terminated flag or its algorithm".into());
+    }
+    if raw != direct {
+        return Err("diffing the string tokens and diffing the integer items they were printed from give different ops".into());
+    }
+    Ok((ro.len() > 100 || rn.len() > 100, direct.len() as u64, ops_fp(&direct)))
+}
+
 pub fn replay(case: &Value) -> Result<String, String> {
+    if let Some(r) = super::large::resolve(case) {
+        let (alg, inp) = r?;
+        return check_large(alg, &inp).map(|o| format!("holds; fingerprint {:x}", o.2));
+    }
     let old = parse_seq(case, "old")?;
     let new = parse_seq(case, "new")?;
     if case.get("ids").is_some() {
